@@ -11,5 +11,5 @@ WordBound == Len(hist) <= MaxLen
 \* complete words only: nothing outstanding at the end
 EmitWord == (Len(hist) = MaxLen /\ \A c \in Ctrl : out[c] = "idle") => PrintT(<<"BEH", ToJson(hist)>>)
 NoAttack == IF bad THEN ~PrintT(<<"BEH", ToJson(hist)>>) ELSE TRUE
-AttackView == <<out, buf, owner, sent, tags, cut, bad>>
+AttackView == <<out, buf, owner, sent, tags, cut, bigq, bad>>
 =======================================================================
